@@ -200,12 +200,15 @@ def main():
         tb = traceback.format_exc()
         print(tb, file=sys.stderr)
         repo = os.environ.get("VERIF_REPO", "/repo")
-        if f'File "{repo}/' not in tb:
-            # nothing of the implementation on the stack: a defect of the machinery itself
+        etype = sys.exc_info()[0]
+        if issubclass(etype, (OSError, MemoryError, ImportError)) and f'File "{repo}/' not in tb:
+            # resources / environment, nothing of the implementation on the stack: the machinery itself
             sys.exit(2)
-        # the implementation raised where the correspondence harness relies on it answering: the
-        # correspondence no longer checks (no property-level failing input was isolated)
-        ctx.disagree("harness: the implementation raised inside a step every case depends on",
+        # the implementation raised - or answered with something of another shape than every earlier run of this
+        # harness met (the exception is then raised by harness code reading the answer) - in a step the
+        # correspondence depends on: the correspondence no longer checks; no property-level failing input isolated
+        where = "the implementation raised" if f'File "{repo}/' in tb else "an answer of the implementation could not be read by the harness"
+        ctx.disagree(f"harness: {where} in a step every case depends on",
                      {"traceback": tb[-4000:]}, "raised", None)
         rc = ctx.finish()
     sys.exit(rc)
